@@ -41,7 +41,9 @@ func VerifNewInstance(p VerifParams) *Instance {
 		p.Opts.RequestLog = new(DefaultRequestLog)
 	}
 	v := p.Validation
-	v.rejectExtIds = p.RejectExt
+	if p.RejectExt != nil {
+		v.rejectExtIds = p.RejectExt
+	}
 	var svc leafChainBuilder = &directIssuanceChainService{}
 	if p.Store != nil {
 		svc = newIndirectIssuanceChainService(p.Store, p.Cache)
